@@ -20,8 +20,13 @@ LEVEL = "exploration"
 
 UNIT = 100
 T0 = 1_600_000_000          # access times t1 < t2 < t3, one hour apart
-TIMES = [T0 + 3600, T0 + 7200, T0 + 10800]
 NOW = T0 + 20000
+# access-time scales t1 < t2 < t3: within hours of now; days old (ages that differ from their value modulo 24 h); a
+# last access in the future (clock skew between writers)
+SCALES = {"hours": [T0 + 3600, T0 + 7200, T0 + 10800],
+          "days": [NOW - 2 * 86400 - 10, NOW - 86400 + 5, NOW - 30],
+          "future": [NOW - 3 * 86400 - 1, NOW - 10, NOW + 600]}
+TIMES = SCALES["hours"]
 
 
 class _FakeDT(datetime.datetime):
@@ -85,8 +90,9 @@ def limits_for(store):
     al = [None, datetime.timedelta(0)]
     for t in sorted({t for _s, t in store}):
         age = NOW - TIMES[t]
-        al.append(datetime.timedelta(seconds=age - 1))
-        al.append(datetime.timedelta(seconds=age + 1))
+        for a in (age - 1, age + 1):
+            if a >= 0:      # joblib rejects a negative age_limit (ValueError): outside the domain
+                al.append(datetime.timedelta(seconds=a))
     al.append(datetime.timedelta(days=30))
     return sorted(bl, key=repr), il, al
 
@@ -131,7 +137,10 @@ def acceptable_evictions(store, bytes_limit, items_limit, age_limit):
 
 
 def _work(item):
-    tier, chunk = item
+    global TIMES
+    tier, chunk = item[:2]
+    scale = item[2] if len(item) > 2 else "hours"
+    TIMES = SCALES[scale]
     import joblib
     _patch_now()
     root = core.scratch_dir("c18-%d" % os.getpid())
@@ -168,12 +177,12 @@ def _work(item):
                     else:
                         kind = "not-lru-order"
                 which = "+".join(x for x, v in (("bytes", bl), ("items", il), ("age", al)) if v is not None) or "none"
-                sig = "%s|%s" % (kind, which)
+                sig = "%s|%s" % (kind, which) + ("" if scale == "hours" else "|access-times-" + scale)
                 if sig not in viols:
                     viols[sig] = [sig, "store (size units, time index) %r with bytes_limit=%r items_limit=%r age_limit=%r: evicted entries %r%s; acceptable minimal LRU prefixes: %r" % (
                         list(store), bl, il, al, sorted(evicted), (" and raised " + exc) if exc else "", [sorted(s) for s in ok]),
                         {"store": [list(e) for e in store], "bytes_limit": bl, "items_limit": il,
-                         "age_limit_s": None if al is None else al.total_seconds()}]
+                         "age_limit_s": None if al is None else al.total_seconds(), "scale": scale}]
             # restore evicted entries
             if evicted:
                 build_store(loc, store)
@@ -240,14 +249,18 @@ def run(ctx):
     else:
         sel = all_stores
     chunks = [sel[i::64] for i in range(64)]
+    work = [(ctx.tier, c, "hours") for c in chunks if c]
+    other = [s for s in all_stores if len(s) <= (3 if quick else 4)]
+    for scale in ("days", "future"):
+        work += [(ctx.tier, c, scale) for c in (other[i::32] for i in range(32)) if c]
     n = nontrivial = 0
-    for res in core.pmap(_work, [(ctx.tier, c) for c in chunks if c]):
+    for res in core.pmap(_work, work):
         n += res["n"]
         nontrivial += res["nontrivial"]
         for v in res["viol"]:
             ctx.violation(*v)
     g = genuine_results(ctx)
-    ctx.rule = ("all stores of <= 4 (quick) / <= 5 (thorough) entries as multisets of (size in {0,1,2,3}x100 bytes, access time in {t1,t2,t3}) built as real "
+    ctx.rule = ("all stores of <= 4 (quick) / <= 5 (thorough) entries as multisets of (size in {0,1,2,3}x100 bytes, access time in {t1,t2,t3} on three scales: hours old, days old (age != age mod 24 h), last access in the future) built as real "
                 "entry directories with exact output.pkl size and utime, x bytes_limit in {None, 0, total, '1K', every LRU prefix "
                 "remainder +-1} x items_limit in {None, 0..n, n+2} x age_limit in {None, 0, each access-time boundary +-1 s, 30 days} "
                 "through Memory.reduce_size; quick = all stores with <= 3 entries + a seed-rotated sixth of the 4-entry stores. "
